@@ -704,8 +704,16 @@ class BaseRequest:
             return b""
 
         self.make_body_seekable()  # we need this to have content_length
-        r = self.body_file.read(self.content_length)
+        clen = self.content_length
+        r = self.body_file.read(clen)
         self.body_file_raw.seek(0)
+
+        if clen is not None and len(r) < clen:
+            # A seekable input that holds less than Content-Length: raise like
+            # copy_body() does instead of silently returning short data.
+            raise DisconnectionError(
+                "Client disconnected (%s more bytes were expected)" % (clen - len(r))
+            )
 
         return r
 
